@@ -379,7 +379,9 @@ def _packets_stats(run, tgt, log0, frames0):
 def _run_read(run, p, tgt, plc, reqs, forced_status):
     names = [render(r) for r in reqs]
     a0, l0 = len(tgt.audits), len(tgt.log)
+    room0 = getattr(tgt, "room_refused", 0)
     ok, res = call(run, lambda: plc.read(*names), "read")
+    allowance = getattr(tgt, "room_refused", 0) - room0   # members the target itself refused for lack of room: those may fail
     collect_audits(run, tgt, a0)
     _packets_stats(run, tgt, l0, 0)
     if not ok:
@@ -397,6 +399,10 @@ def _run_read(run, p, tgt, plc, reqs, forced_status):
         run.classes.add("read." + k)
         want, wtype = expected_read(p, tgt.memory, r)
         if not tag:
+            if allowance > 0 and tag.error and "Insufficient Packet Space" in tag.error:
+                allowance -= 1
+                run.classes.add("room-refused")
+                continue
             run.add("C01", f"read.falsy.{errclass(tag.error)}", f"{name}: {tag!r}"[:500])
             run.add("C03", f"read.valid-fails.{errclass(tag.error)}", f"{name}: {tag!r}"[:500])
             continue
@@ -415,11 +421,16 @@ def _run_read(run, p, tgt, plc, reqs, forced_status):
         for r, t in valid:
             if isinstance(t.value, (list, dict)):
                 scramble(t.value)
+        room0 = getattr(tgt, "room_refused", 0)
         ok2, res2 = call(run, lambda: plc.read(*[render(r) for r, _ in valid]), "read")
+        allowance = getattr(tgt, "room_refused", 0) - room0
         if ok2:
             res2 = res2 if isinstance(res2, list) else [res2]
             for (r, _), tag in zip(valid, res2):
                 want, _ = expected_read(p, tgt.memory, r)
+                if not tag and allowance > 0 and tag.error and "Insufficient Packet Space" in tag.error:
+                    allowance -= 1
+                    continue
                 if not tag or not ref_equal(tag.value, want):
                     run.add("C01", f"read.repeat.{kind_of(p, r)}", f"{render(r)}: a second read (after the caller modified the first result) returned {_short(tag.value if tag else tag)}, controller holds {_short(want)}"[:700])
 
